@@ -47,22 +47,23 @@ ok = "431 passed" in meta["confirmed"]["suite_with_change"] and meta["confirmed"
 meta["confirmed"]["ok"] = ok
 print("confirmed:", ok, meta["confirmed"]["suite_with_change"], meta["confirmed"]["demo_with_change"]["rc"], meta["confirmed"]["demo_without_change"]["rc"])
 
-# run the checks against it
-assert sh("git -C /repo status --porcelain").stdout.strip() == "", "/repo not clean"
+# run the checks against it: the patch is applied to a scratch copy of /repo (git archive of
+# HEAD + working tree) and the checks are pointed at it with VERIF_REPO, so /repo itself is
+# never modified while background soaks use it
 scratch = f"/dev/shm/seeded-eval-{tag}-{n}"
 shutil.rmtree(scratch, ignore_errors=True)
-os.makedirs(scratch)
-r = sh(f"git -C /repo apply {patch}")
-assert r.returncode == 0, r.stderr
+os.makedirs(scratch + "/repo")
+sh(f"cd /repo && git ls-files -z src | xargs -0 cp --parents -t {scratch}/repo")
+r = sh(f"cd {scratch}/repo && patch -p1 --no-backup-if-mismatch < {patch}")
+assert r.returncode == 0, r.stdout + r.stderr
 try:
     for p in [prop] + extra:
-        env = dict(os.environ, VERIF_EVIDENCE_DIR=scratch, VERIF_REPLAY_DIR=scratch, VERIF_SHRINK_BUDGET="150")
+        env = dict(os.environ, VERIF_REPO=scratch + "/repo", VERIF_EVIDENCE_DIR=scratch, VERIF_REPLAY_DIR=scratch, VERIF_SHRINK_BUDGET="150")
         t0 = time.time()
         r = subprocess.run(["/verif/check", p, "quick"], capture_output=True, text=True, env=env)
-        lines = [ln for ln in r.stdout.splitlines() if ln.startswith(("VIOLATION", "  oracle", "HARNESS", "KNOWN")) or " quick: " in ln]
+        lines = [ln for ln in r.stdout.splitlines() if ln.startswith(("VIOLATION", "  oracle", "HARNESS", "KNOWN", "COVERAGE")) or " quick: " in ln]
         meta["checks"][p] = {"rc": r.returncode, "wall_s": round(time.time() - t0, 1), "lines": [ln[:400] for ln in lines[:12]]}
         print(p, "rc", r.returncode, *[ln[:260] for ln in lines[:4]], sep="\n   ")
-        # keep the first minimised replay as illustration
         for ln in lines:
             if ln.startswith("VIOLATION"):
                 rp = ln.split("replay=")[1].strip()
@@ -71,9 +72,7 @@ try:
                     shutil.copy(rp, f"{dest}/replay-{p}.json")
                 break
 finally:
-    sh("git -C /repo checkout -- .")
     shutil.rmtree(scratch, ignore_errors=True)
-assert sh("git -C /repo status --porcelain").stdout.strip() == ""
 meta["detected_by_own_check"] = meta["checks"][prop]["rc"] == 1
 os.makedirs(dest, exist_ok=True)
 shutil.copy(patch, f"{dest}/patch.diff")
@@ -82,6 +81,6 @@ if os.path.exists(f"{src}/notes{n}.md"):
     shutil.copy(f"{src}/notes{n}.md", f"{dest}/notes.md")
 meta["ran"] = [
     f"git -C {wt} apply patch.diff; cd {wt} && PYTHONPATH=src pytest -q -n 8; PYTHONPATH=src python demo.py (expect rc 1); git checkout -- .; python demo.py (expect rc 0)",
-    f"git -C /repo apply patch.diff; ./check {prop} quick; git -C /repo checkout -- .",
+    f"copy of /repo/src + patch -p1 < patch.diff under /dev/shm; VERIF_REPO=<copy> ./check {prop} quick; copy removed",
 ]
 json.dump(meta, open(f"{dest}/meta.json", "w"), indent=1)
